@@ -283,6 +283,20 @@ func runCell(c *run.Ctx, cell c14Cell) {
 			d.Publish(lvl, false, 1)
 		}
 	}
+	// one transfer of the same level pending before a Save failure: the refusal
+	// must leave it alone
+	var earlier *sim.Pub
+	if cell.Store && !cell.AtMax && kind == "Persisted" && cell.State == "online" && cell.Arg == "valid" {
+		w.Mu.Lock()
+		w.Broker.AckPolicy = func(b *sim.Broker, cn *sim.Conn, p *wire.Packet, reply []byte) string { return "hold" }
+		w.Mu.Unlock()
+		lvl := 1
+		if strings.HasPrefix(cell.Method, "PublishExactlyOnce") {
+			lvl = 2
+		}
+		earlier = d.Publish(lvl, false, 1)
+		w.WaitReaderQuiet(sim.StepTimeout)
+	}
 	w.Mu.Lock()
 	storeFail = cell.Store
 	w.Mu.Unlock()
@@ -445,10 +459,35 @@ func runCell(c *run.Ctx, cell c14Cell) {
 				if strings.HasPrefix(cell.Method, "PublishExactlyOnce") {
 					lvl = 2
 				}
-				for i := 0; i < 2; i++ {
+				room := 2
+				if earlier != nil && earlier.Err == nil {
+					room = 1
+				}
+				for i := 0; i < room; i++ {
 					if p := d.Publish(lvl, false, 1); p.Err != nil {
-						c.Violate("refused-publish-consumed-capacity", fmt.Sprintf("%s: after the refusal (%q) publish %d of a maximum of 2 got %q", cell, err, i+1, p.Err), detail())
+						c.Violate("refused-publish-consumed-capacity", fmt.Sprintf("%s: after the refusal (%q) publish %d of the %d that still fit got %q", cell, err, i+1, room, p.Err), detail())
 						break
+					}
+				}
+				if earlier != nil && earlier.Err == nil {
+					// the broker answers: what was pending before the refusal completes, in order
+					w.Mu.Lock()
+					w.Broker.AckPolicy = nil
+					w.Mu.Unlock()
+					w.Broker.ReleaseHeld()
+					done := func() bool { return earlier.ClosedSeq != 0 }
+					if !w.WaitUntil(sim.StepTimeout, done) {
+						wedged, report := w.Diagnose(1500 * time.Millisecond)
+						if !w.WaitUntil(time.Millisecond, done) {
+							if wedged {
+								dt := detail()
+								dt["report"] = report
+								c.Violate("refused-publish-disturbed-pending-transfer", fmt.Sprintf("%s: the transfer that was pending when %s got refused (%q) never completed although the broker acknowledged it", cell, cell.Method, err), dt)
+							} else {
+								c.Inconclusive("pending transfer slow after a refusal")
+							}
+							c.Spoiled()
+						}
 					}
 				}
 			}
